@@ -1,7 +1,8 @@
 (* C13 property theorems: statements only; proofs live in Proofs/C13.v. *)
 From Coq Require Import Permutation.
 From TS Require Import Model.Str Model.Syntax Model.Attrs Model.TargetOs Spec.TargetOsRule.
-From TS Require Proofs.C13.
+From TS Require Proofs.C13 Proofs.C13Levels Proofs.FrontItems.
+From TS Require Import Model.Outcome Model.Unicode Model.Types Model.Parse Spec.Serde Spec.C03Spec.
 
 (* For every attribute list whose cfg predicates parse as meta lists - any nesting depth, any
    arity, any mix of any/all/not, target_os = "..", other key/value pairs, bare words, several cfg
@@ -35,3 +36,54 @@ Theorem C13_decision_total :
   forall (attrs : list attr) (T : list str), exists b, accept_target_os attrs T = Some b.
 Proof. exact Proofs.C13.accept_total. Qed.
 Print Assumptions C13_decision_total.
+
+(* ------------------------------------------------------------------------------------------------
+   "... at every level".  The decision above is what the front end consults at each of the five places
+   (Proofs/C13Levels.v).  cfg_parsable: every cfg attribute of the element parses as a meta list (the
+   hypothesis of C13_accept_is_documented_rule); skip_marked: serde(skip) / typeshare(skip), which is C03's subject. *)
+
+(* FIELD level: for every struct with named fields, the fields of the parsed struct are exactly the source fields
+   that carry no skip marker and that the documented rule keeps - same order, none dropped, none invented *)
+Theorem C13_field_level :
+  forall (uc : unicode) (tstr : str -> option ty) (T : list str) attrs ident gens l s,
+  (forall f, In f l -> cfg_parsable (f_attrs f) = true) ->
+  parse_struct uc tstr T attrs ident gens (FNamed l) = Ok (ItStruct s) ->
+  map (fun rf => original (fid rf)) (sfields s) =
+  map Proofs.FrontItems.field_name (filter (fun f => negb (skip_marked (f_attrs f)) && os_rule (f_attrs f) T) l).
+Proof. exact Proofs.C13Levels.field_level. Qed.
+Print Assumptions C13_field_level.
+
+(* VARIANT level *)
+Theorem C13_variant_level :
+  forall (uc : unicode) (tstr : str -> option ty) (T : list str) attrs ident gens vs e,
+  (forall v, In v vs -> cfg_parsable (v_attrs v) = true) ->
+  parse_enum uc tstr T attrs ident gens vs = Ok (ItEnum e) ->
+  map (fun rv => original (vid (variant_shared rv))) (evariants (enum_shared e)) =
+  map (fun v => replace_sub (lit "r#") [] (v_ident v))
+      (filter (fun v => negb (skip_marked (v_attrs v)) && os_rule (v_attrs v) T) vs).
+Proof. exact Proofs.C13Levels.variant_level. Qed.
+Print Assumptions C13_variant_level.
+
+(* STRUCT-VARIANT FIELD level *)
+Theorem C13_variant_field_level :
+  forall (uc : unicode) (tstr : str -> option ty) (T : list str) ra attrs ident l rv,
+  (forall f, In f l -> cfg_parsable (f_attrs f) = true) ->
+  parse_enum_variant uc tstr T ra {| v_attrs := attrs; v_ident := ident; v_fields := FNamed l |} = Ok rv ->
+  exists fs sh, rv = VAnon fs sh /\
+    map (fun rf => original (fid rf)) fs =
+    map Proofs.FrontItems.field_name (filter (fun f => negb (skip_marked (f_attrs f)) && os_rule (f_attrs f) T) l).
+Proof. exact Proofs.C13Levels.variant_field_level. Qed.
+Print Assumptions C13_variant_field_level.
+
+(* TYPE level: the visitor looks at an item iff it is annotated and the rule keeps it *)
+Theorem C13_item_level :
+  forall (T : list str) attrs, cfg_parsable attrs = true -> wanted T attrs = annotated attrs && os_rule attrs T.
+Proof. exact Proofs.C13Levels.item_level. Qed.
+Print Assumptions C13_item_level.
+
+(* FILE level: a file whose inner attributes the rule rejects contributes nothing *)
+Theorem C13_file_level :
+  forall (uc : unicode) (tstr : str -> option ty) (T : list str) f,
+  cfg_parsable (fl_attrs f) = true -> os_rule (fl_attrs f) T = false -> parse_file uc tstr T f = Ok None.
+Proof. exact Proofs.C13Levels.file_level. Qed.
+Print Assumptions C13_file_level.
